@@ -23,6 +23,8 @@ def decode_vals(vals):
 
 def np_values(spec):
     shape = tuple(spec["shape"])
+    if str(spec["dtype"]).startswith("complex"):
+        return np.array([complex(v[0], v[1]) for v in spec["vals"]], dtype=np.dtype(spec["dtype"])).reshape(shape)
     a = np.array(decode_vals(spec["vals"]), dtype=np.dtype(spec["dtype"]))
     return a.reshape(shape)
 
@@ -49,7 +51,8 @@ def model_of(spec):
     """-> (float64 values (or list per component), unit model) of a spec; numbers/ndarrays dimensionless."""
     k = spec["k"]
     if k in ("A", "Q"):
-        return np_values(spec).astype(np.float64), um.parse(spec["unit"])
+        v = np_values(spec)
+        return (v if np.iscomplexobj(v) else v.astype(np.float64)), um.parse(spec["unit"])
     if k == "V":
         return [np_values(c).astype(np.float64) for c in spec["comps"]], um.parse(spec["comps"][0]["unit"])
     if k in ("num", "npf"):
@@ -63,6 +66,10 @@ def model_of(spec):
 @st.composite
 def magnitudes(draw, dtype, n, specials=False, allow_zero=True, lo=-3, hi=3, positive=False):
     """n numbers with |x| in {0} u 10^[lo,hi]; integer-valued for int dtypes."""
+    if dtype.startswith("complex"):
+        re = draw(magnitudes("float64", n, allow_zero=allow_zero, lo=lo, hi=hi, positive=positive))
+        im = draw(magnitudes("float64", n, allow_zero=True, lo=lo, hi=hi))
+        return [[a, b] for a, b in zip(re, im)]
     out = []
     isint = dtype.startswith("int")
     for _ in range(n):
